@@ -61,7 +61,7 @@ def run(ctx):
     ]
 
     # 1. model checking of the designs.
-    write_cfg(d / "SigMC_run.cfg", "SSpec", sig_consts(3 if q else 4), invariants=SIG_INV,
+    write_cfg(d / "SigMC_run.cfg", "SSpec", sig_consts(3 if q else 5), invariants=SIG_INV,
               properties=["LaterSignalsChangeNothing", "EventuallyReturns"])
     ctx.tlc(d, "SignalHandler", "SigMC_run.cfg", label="signal-mc", timeout=1200)
     # The defect fixed by b5e2710, shown on the design: with PanicAborts the same invariants fail.
